@@ -30,7 +30,7 @@ BUDGET = {"quick": 240, "thorough": 3000}
 
 
 def bounds(tier):
-    return {"versions_per_history": "2..3" if tier == "quick" else "2..4",
+    return {"versions_per_history": "2..3, and 4 over a 3-list core (recurring contents)" if tier == "quick" else "2..4",
             "lines_per_version": "<= 2 over {a,b,c}" if tier == "quick" else "<= 3 (<= 2 for 3-4 version histories)",
             "start_states": "each vi, current, foreign, absent",
             "fault_bound": 1 if tier == "quick" else 2,
@@ -336,6 +336,9 @@ def histories(tier, seed):
     out = [[a, b] for a in l2 for b in l2 if a != b]
     core7 = l2[:7]
     out += [[a, b, c] for a in core7 for b in core7 for c in core7 if a != b and b != c]
+    core3 = l2[:3]
+    out += [[a, b, c, e] for a in core3 for b in core3 for c in core3 for e in core3
+            if a != b and b != c and c != e]
     if tier == "thorough":
         l3 = all_lists(3, seed)
         out += [[a, b] for a in l3 for b in l3 if a != b and (len(a) == 3 or len(b) == 3)]
@@ -344,7 +347,7 @@ def histories(tier, seed):
                 and (a in rest or b in rest or c in rest)]
         core4 = l2[:4]
         out += [[a, b, c, e] for a in core4 for b in core4 for c in core4 for e in core4
-                if a != b and b != c and c != e]
+                if a != b and b != c and c != e and not (a in core3 and b in core3 and c in core3 and e in core3)]
     return out
 
 
